@@ -11,6 +11,8 @@ mod cent;
 mod comp;
 mod cluster;
 mod comm;
+mod gens;
+mod par;
 use std::io::{BufRead, Write};
 
 fn main() {
@@ -49,6 +51,8 @@ fn main() {
                     "comp" => comp::run_case(&cur, &mut o),
                     "cluster" => cluster::run_case(&cur, &mut o),
                     "comm" => comm::run_case(&cur, &mut o),
+                    "gens" => gens::run_case(&cur, &mut o),
+                    "par" => par::run_case(&cur, &mut o),
                     _ => {
                         eprintln!("unknown mode {}", mode);
                         std::process::exit(2);
